@@ -294,6 +294,12 @@ func muts() []mut {
 		{"double=2.5", tm(func(t *T) { t.DefaultDouble = 2.5 })},
 		{"double=2.75", tm(func(t *T) { t.DefaultDouble = 2.75 })},
 		{"double=-2.5", tm(func(t *T) { t.DefaultDouble = -2.5 })},
+		// below zero the relative tolerance still goes by the SMALLER magnitude: -100 vs -110.5 differ by 10.5, more
+		// than a tenth of 100 and less than a tenth of 110.5; -20 vs 1 lies across zero
+		{"double=-100", tm(func(t *T) { t.DefaultDouble = -100 })},
+		{"double=-110.5", tm(func(t *T) { t.DefaultDouble = -110.5 })},
+		{"double=-109.5", tm(func(t *T) { t.DefaultDouble = -109.5 })},
+		{"double=-20", tm(func(t *T) { t.DefaultDouble = -20 })},
 		{"double=NaN", tm(func(t *T) { t.DefaultDouble = math.NaN() })},
 		{"double=+Inf", tm(func(t *T) { t.DefaultDouble = math.Inf(1) })},
 		{"optfloat=unset", tm(func(t *T) { t.OptionalFloat = nil })},
